@@ -18,6 +18,7 @@ import (
 	"fmt"
 	"io"
 	"math/rand"
+	"os"
 	"sort"
 	"strings"
 	"sync"
@@ -167,6 +168,13 @@ func simulate(h history) func(n, g int) int {
 	}
 }
 
+func mcConstants(ctx *core.Ctx) string {
+	if ctx.Thorough() {
+		return "Objs={1,2,3}, MaxRevs=3, Styles={runs}, ZeroFree=FALSE, MaxPieces=5, OFFBYONE=FALSE, NULLZERO=FALSE"
+	}
+	return "Objs={1,2,3}, MaxRevs=2, Styles={one,each,runs}, ZeroFree=TRUE, MaxPieces=4, OFFBYONE=FALSE, NULLZERO=FALSE"
+}
+
 func tlcOpts() core.TLCOpts {
 	return core.TLCOpts{Dir: specDir, Module: "Trace_XRefHistory", Cfg: "Trace_XRefHistory.cfg", XssMB: 512, XmxMB: 2500}
 }
@@ -183,7 +191,7 @@ func run(ctx *core.Ctx) error {
 		cfg = "MC_XRefHistory_t.cfg"
 	}
 	if _, err := ctx.MustHold(core.TLCOpts{Dir: specDir, Module: "MC_XRefHistory", Cfg: cfg, Workers: ctx.Pick(8, 16),
-		Constants: "see " + cfg, Timeout: ctx.Dur(5, 25), XssMB: 512, XmxMB: ctx.Pick(4000, 8000)}); err != nil {
+		Constants: mcConstants(ctx), Timeout: ctx.Dur(5, 25), XssMB: 512, XmxMB: ctx.Pick(4000, 8000)}); err != nil {
 		return err
 	}
 
@@ -233,12 +241,15 @@ func run(ctx *core.Ctx) error {
 		ctx.Ev.Sample(map[string]any{"kind": "table line of Gen_XRefHistory", "case": hcases[len(hcases)/2]})
 	}
 
-	// thorough: every history of exactly 3 revisions over 3 objects (the
-	// harness enumerates them; TLC re-checks that each is one the standard
-	// allows and judges the answers), one seeded rendering each
+	// thorough: the histories of exactly 3 revisions over 3 objects (the
+	// harness enumerates all 518991; TLC re-checks that each is one the
+	// standard allows and judges the answers), one seeded rendering each.
+	// One run takes the third selected by the seed (seeds s, s+1, s+2 together
+	// cover all); C04_R3_ALL=1 takes all of them.
 	if ctx.Thorough() {
 		var chunk []job
-		n3 := 0
+		n3, taken := 0, 0
+		all := os.Getenv("C04_R3_ALL") != ""
 		var perr error
 		flush := func() {
 			if perr == nil && len(chunk) > 0 {
@@ -248,6 +259,10 @@ func run(ctx *core.Ctx) error {
 		}
 		enumerate(3, 3, func(h history) {
 			n3++
+			if !all && int64(n3)%3 != ((ctx.Seed%3)+3)%3 {
+				return
+			}
+			taken++
 			s := ctx.Seed*7_000_003 + int64(n3)
 			chunk = append(chunk, job{c: histCase{"hist", h, s*2 + 1, s}})
 			if len(chunk) >= 60000 {
@@ -259,7 +274,8 @@ func run(ctx *core.Ctx) error {
 			return perr
 		}
 		ctx.Ev.Set("histories_3_revisions_enumerated", n3)
-		ctx.Logf("histories: all %d histories of 3 revisions x 3 objects executed on pdf.NewReader", n3)
+		ctx.Ev.Set("histories_3_revisions_executed", taken)
+		ctx.Logf("histories: %d of the %d histories of 3 revisions x 3 objects executed on pdf.NewReader", taken, n3)
 	}
 	ctx.Ev.Set("files_with_subsection_1_first_entry_65535", st.triggers)
 	for _, k := range core.SortedKeys(st.seenKey) {
@@ -284,7 +300,7 @@ func run(ctx *core.Ctx) error {
 	}
 	ctx.Ev.Exhaustive = true
 	ctx.Ev.Set("exhaustive_scope", "all histories of the bounded model ("+cfg+") in TLC; all histories of Gen_XRefHistory (<=2 revisions x 3 objects) on the real reader; "+
-		"all bodies of <= MaxPieces pieces x every declared length; seeded renderings and random histories beyond")
+		"all bodies of <= MaxPieces pieces x every declared length; seeded renderings and random histories beyond (thorough: a seeded third of all histories of 3 revisions x 3 objects)")
 	return nil
 }
 
@@ -480,7 +496,7 @@ func generate(ctx *core.Ctx) ([]genCase, error) {
 		wg.Add(1)
 		go func(sh int) {
 			defer wg.Done()
-			cfg := fmt.Sprintf("INIT Init\nNEXT Next\nCONSTANTS OFFBYONE = FALSE\n Objs = {1, 2, 3}\n MaxRevs = 2\n MaxPieces = %d\n Shard = %d\n Shards = %d\n", pieces, sh, shards)
+			cfg := fmt.Sprintf("INIT Init\nNEXT Next\nCONSTANTS OFFBYONE = FALSE\n NULLZERO = FALSE\n Objs = {1, 2, 3}\n MaxRevs = 2\n MaxPieces = %d\n Shard = %d\n Shards = %d\n", pieces, sh, shards)
 			cs, _, err := core.GenCases[genCase](ctx, core.TLCOpts{Dir: specDir, Module: "Gen_XRefHistory", CfgText: cfg, Mode: "evaluate",
 				XssMB: 512, Timeout: ctx.Dur(5, 15), Quiet: sh > 0, Constants: "Objs=1..3, MaxRevs=2"})
 			mu.Lock()
